@@ -167,6 +167,7 @@ partial def main (args : List String) : IO UInt32 := do
             | .ok (a, _) => objRepr false (vm.gc.mem.objAt a)
             | .error _ => "?"
           else "-"
+        vm := haltEpilogue vm
         results := results ++ [s!"exec ret={if vm.running == 0 then 0 else 1} sp_before={sp0} sp_after={vm.sp} running={vm.running} exc={vm.exception} result={r}"]
         if vm.running != 0 ∧ !callsMode then execsLeft := 0 else execsLeft := execsLeft - 1
     IO.println s!"steps {steps}"
